@@ -282,6 +282,16 @@ def _real_converters(r):
     ]
 
 
+def _same(x, y):
+    """exact equality, NaNs in the same places counting as equal (a converter fed a zero-mass image yields NaNs)"""
+    x, y = np.asarray(x), np.asarray(y)
+    if x.shape != y.shape:
+        return False
+    if x.dtype.kind in "fc" or y.dtype.kind in "fc":
+        return bool(np.array_equal(x, y, equal_nan=True))
+    return bool(np.array_equal(x, y))
+
+
 def run_case(inp):
     from acryo import pipe
     from acryo.pipe import provider_function, converter_function, ImageProvider, ImageConverter
@@ -306,14 +316,14 @@ def run_case(inp):
             q = pipe.from_array(_blob(inp["seed"] + 1, shape), original_scale=scale)
             try:
                 ab = (a @ b)(img, scale)
-                if not np.array_equal(ab, a(b(img, scale), scale)):
+                if not _same(ab, a(b(img, scale), scale)):
                     V("compose", f"({na} @ {nb})(img, s) != {na}({nb}(img, s), s)")
-                if not np.array_equal(((a @ b) @ c)(img, scale), (a @ (b @ c))(img, scale)):
+                if not _same(((a @ b) @ c)(img, scale), (a @ (b @ c))(img, scale)):
                     V("associative", f"(({na} @ {nb}) @ {nc}) != ({na} @ ({nb} @ {nc}))")
                 ap = a @ p
-                if not isinstance(ap, ImageProvider) or not np.array_equal(ap(scale), a(p(scale), scale)):
+                if not isinstance(ap, ImageProvider) or not _same(ap(scale), a(p(scale), scale)):
                     V("compose", f"({na} @ provider)(s) != {na}(provider(s), s)")
-                if not np.array_equal(((a @ b) @ p)(scale), (a @ (b @ p))(scale)):
+                if not _same(((a @ b) @ p)(scale), (a @ (b @ p))(scale)):
                     V("associative", "((a @ b) @ provider) != (a @ (b @ provider))")
             except Exception as e:  # noqa: BLE001
                 V("no-error", f"composition raised {type(e).__name__}: {str(e)[:100]}")
@@ -340,11 +350,11 @@ def run_case(inp):
                         V("operator", f"`{label}` raised {type(e).__name__}: {str(e)[:80]}")
                         continue
                     w = np.asarray(want())
-                    if g.shape != w.shape or not np.array_equal(g.astype(np.float64), w.astype(np.float64), equal_nan=True):
+                    if g.shape != w.shape or not _same(g.astype(np.float64), w.astype(np.float64)):
                         V("operator", f"`{label}` is not the voxel-wise `{sym}` of the provided images "
                                       f"(max difference {np.nanmax(np.abs(g.astype(float) - w.astype(float))):.4g})")
             try:
-                if not np.array_equal((-p)(scale), -P) or not np.array_equal((-a)(img, scale), -A):
+                if not _same((-p)(scale), -P) or not _same((-a)(img, scale), -A):
                     V("operator", "negation is not voxel-wise")
             except Exception as e:  # noqa: BLE001
                 V("operator", f"negation raised {type(e).__name__}")
@@ -377,17 +387,17 @@ def run_case(inp):
 
             k = float(r.choice([2.0, 0.5]))
             img = _blob(inp["seed"], (2, 3, 4))
-            if not np.array_equal(prov2((2, 3, 4), fill=k)(scale), np.full((2, 3, 4), k * scale, dtype=np.float32)):
+            if not _same(prov2((2, 3, 4), fill=k)(scale), np.full((2, 3, 4), k * scale, dtype=np.float32)):
                 V("curry", "provider_function(f)(args)(scale) != f(scale, *args)")
-            if not np.array_equal(prov0()(scale), np.ones((2, 2, 2), dtype=np.float32)):
+            if not _same(prov0()(scale), np.ones((2, 2, 2), dtype=np.float32)):
                 V("curry", "zero-argument provider function")
-            if not np.array_equal(conv2(k, off=3.0)(img, scale), img * k + 3.0 * scale):
+            if not _same(conv2(k, off=3.0)(img, scale), img * k + 3.0 * scale):
                 V("curry", "converter_function(f)(args)(img, scale) != f(img, scale, *args)")
-            if not np.array_equal(conv1()(img, scale), img + 1):
+            if not _same(conv1()(img, scale), img + 1):
                 V("curry", "one-argument converter function")
-            if not np.array_equal(conv0()(img, scale), np.zeros((2, 2, 2), dtype=np.float32)):
+            if not _same(conv0()(img, scale), np.zeros((2, 2, 2), dtype=np.float32)):
                 V("curry", "zero-argument converter function")
-            if not np.array_equal(conv2(k).with_scale(scale)(img), img * k):
+            if not _same(conv2(k).with_scale(scale)(img), img * k):
                 V("curry", "with_scale(scale)(img) != converter(img, scale)")
         elif kind == "covariance":
             lam = float(inp["lam"])
@@ -441,23 +451,23 @@ def run_case(inp):
             img = _blob(inp["seed"], shape)
             orig = float(inp["orig"])
             same = pipe.from_array(img, original_scale=orig)(orig)
-            if same is not img and not np.array_equal(same, img):
+            if same is not img and not _same(same, img):
                 V("rescale-identity", "from_array at its own scale does not return the image unchanged")
             near = pipe.from_array(img, original_scale=orig, tol=0.02)(orig * 1.01)
-            if not np.array_equal(near, img):
+            if not _same(near, img):
                 V("rescale-identity", "from_array within tolerance resampled the image")
             # the tolerance is RELATIVE (|orig/scale - 1| < tol), whatever the voxel size
             # (offsets large enough to change the resampled shape: scipy's zoom is the identity otherwise)
             for o_ in (orig, 0.05 * orig, 4.0 * orig):
                 inside = pipe.from_array(img, original_scale=o_, tol=0.2)(o_ * 1.15)
                 outside = np.asarray(pipe.from_array(img, original_scale=o_, tol=0.01)(o_ * 1.1))
-                if not np.array_equal(inside, img):
+                if not _same(inside, img):
                     V("rescale-tolerance", f"from_array(original_scale={o_}, tol=0.2) resampled at a scale 15 % off")
-                if outside.shape == img.shape and np.array_equal(outside, img):
+                if outside.shape == img.shape and _same(outside, img):
                     V("rescale-tolerance", f"from_array(original_scale={o_}, tol=0.01) did not resample at a scale 10 % off")
                 li = pipe.from_arrays([img], original_scale=o_, tol=0.2)(o_ * 1.15)
                 lo = pipe.from_arrays([img], original_scale=o_, tol=0.01)(o_ * 1.1)
-                if not np.array_equal(li[0], img) or (np.asarray(lo[0]).shape == img.shape and np.array_equal(lo[0], img)):
+                if not _same(li[0], img) or (np.asarray(lo[0]).shape == img.shape and _same(lo[0], img)):
                     V("rescale-tolerance", f"from_arrays(original_scale={o_}): tolerance is not relative")
             ratio = float(inp["ratio"])
             out = np.asarray(pipe.from_array(img, original_scale=orig)(orig / ratio))
@@ -478,7 +488,7 @@ def run_case(inp):
                 if np.abs(com_in - com_out).max() > 1.0:
                     V("rescale", f"resampled blob moved by {np.abs(com_in - com_out).max():.2f} px")
             lst = pipe.from_arrays([img, img * 2], original_scale=orig)(orig)
-            if len(lst) != 2 or not np.array_equal(lst[1], img * 2):
+            if len(lst) != 2 or not _same(lst[1], img * 2):
                 V("rescale-identity", "from_arrays at its own scale")
         elif kind == "files":
             # providers that read files: every file is rescaled from ITS OWN pixel size (header) unless one is given
@@ -535,7 +545,7 @@ def run_case(inp):
                                f"({'touching the border' if inp.get('border') or inp.get('full') else 'interior'})")
             if not np.all(o <= b):
                 V("anti-extensive", f"closing(-{rad}) (opening) is not anti-extensive")
-            if abs(rad / scale) < 1 and not (np.array_equal(d, b) and np.array_equal(c, b)):
+            if abs(rad / scale) < 1 and not (_same(d, b) and _same(c, b)):
                 V("sub-voxel-radius", "a radius below one voxel must leave the mask unchanged")
             sm = np.asarray(pipe.gaussian_smooth(float(inp["sigma"]))(b, scale))
             if sm.min() < 0 or sm.max() > 1 + 1e-6:
@@ -552,15 +562,15 @@ def run_case(inp):
                                    scale=scale, output_shape=(6, 6, 6))
             p = pipe.from_array(img, original_scale=scale) * 2
             t = ld.normalize_template(p)
-            if not np.array_equal(t, img * 2):
+            if not _same(t, img * 2):
                 V("loader", "normalize_template(provider) != provider(loader.scale)")
             conv = pipe.gaussian_filter(sigma=1.0 * scale) > 0.1
             t2, m2 = ld.normalize_input(p, conv)
             want = conv(img * 2, scale)
-            if not np.array_equal(np.asarray(m2, dtype=np.float32), np.asarray(want, dtype=np.float32)):
+            if not _same(np.asarray(m2, dtype=np.float32), np.asarray(want, dtype=np.float32)):
                 V("loader", "normalize_input(template, converter) != converter(template, loader.scale)")
             m3 = ld.normalize_mask(pipe.from_array((img > 0).astype(np.float32), original_scale=scale))
-            if not np.array_equal(m3, (img > 0).astype(np.float32)):
+            if not _same(m3, (img > 0).astype(np.float32)):
                 V("loader", "normalize_mask(provider) != provider(loader.scale)")
     return viols
 
